@@ -32,6 +32,7 @@ Obj(ks, vs) == [k |-> "obj", ks |-> ks, vs |-> vs]
 Val(v) == [k |-> "val", v |-> v]
 Bad == [k |-> "bad"]
 SourcePool == {Obj(<<"a">>, <<IntV(1)>>), Obj(<<"a", "b">>, <<IntV(2), IntV(3)>>), Obj(<<"b">>, <<StrV("s")>>), Obj(<<>>, <<>>),
+               Obj(<<"value_1">>, <<StrV("n")>>),        \* an object key spelled like the name an unnamed value gets: later sources still win, by order of appearance
                Val(IntV(7)), Val(StrV("t")), Val(ListV(<<IntV(1)>>)), Val(NullV), Bad}
 InputNames == {"a", "b", "value_1", "value_2", "value_3", "zz"}
 
@@ -143,16 +144,17 @@ ExitZeroIff == phase = "done" =>
                    /\ pos = Len(script) + 1)
 \* immutability seen through outputs: an emitted name has one value
 OutputsFunctional == \A i, j \in 1..Len(outs) : outs[i][1] = outs[j][1] => outs[i][2] = outs[j][2]
-\* later sources override earlier ones, key by key
+\* later sources override earlier ones, key by key; the k-th unnamed value writes the key value_k - also when an object
+\* source has a key of that very name: order of appearance decides, nothing is renamed
+Vals == {i \in 1..Len(Sources) : Sources[i].k = "val"}
+Writes(i, key) == \/ Sources[i].k = "obj" /\ \E j \in 1..Len(Sources[i].ks) : Sources[i].ks[j] = key
+                  \/ Sources[i].k = "val" /\ ValueName(Cardinality({j \in Vals : j <= i})) = key
+Written(i, key) == IF Sources[i].k = "val" THEN Sources[i].v
+                   ELSE Sources[i].vs[CHOOSE j \in 1..Len(Sources[i].ks) : Sources[i].ks[j] = key]
 MergeLaw == phase # "merge" /\ exit # 1 =>
-   \A key \in {"a", "b"} :
-      LET idx == {i \in 1..Len(Sources) : Sources[i].k = "obj" /\ \E j \in 1..Len(Sources[i].ks) : Sources[i].ks[j] = key} IN
+   \A key \in InputNames :
+      LET idx == {i \in 1..Len(Sources) : Writes(i, key)} IN
       IF idx = {} THEN inputs[key] = Unb
-      ELSE LET last == CHOOSE i \in idx : \A j \in idx : j <= i
-               p == CHOOSE j \in 1..Len(Sources[last].ks) : Sources[last].ks[j] = key IN
-           inputs[key] = Sources[last].vs[p]
-UnnamedLaw == phase # "merge" /\ exit # 1 =>
-   LET vals == {i \in 1..Len(Sources) : Sources[i].k = "val"} IN
-   /\ unnamed = Cardinality(vals)
-   /\ \A i \in vals : inputs[ValueName(Cardinality({j \in vals : j <= i}))] = Sources[i].v
+      ELSE inputs[key] = Written(CHOOSE i \in idx : \A j \in idx : j <= i, key)
+UnnamedLaw == phase # "merge" /\ exit # 1 => unnamed = Cardinality(Vals)
 =============================================================================
